@@ -266,6 +266,40 @@ class Engine:
             self.solver.pop()
         self._record(ob)
 
+    def oblige_focused(self, kind, hyps, goal, node=None, name=None, assume=True):
+        """an obligation proved from an explicit list of established facts plus the quantifier-free part of the path
+        (a subset of the current assumptions, hence sound); the goal is then added to the path"""
+        if self.spec_mode:
+            return
+        qf = [a for a in self.assumptions if not _has_quant(a)]
+        ob = Obligation(name, kind, qf + list(hyps), goal, getattr(node, 'lineno', None), '')
+        ob.path = list(self.trace[:self.pos])
+        t0 = time.time()
+        for attempt in range(2):
+            s = z3.Solver()
+            s.set('timeout', self.timeout_ms)
+            if attempt == 1:
+                s.set('smt.random_seed', 7)
+            for a in ob.assumptions:
+                s.add(a)
+            s.add(z3.Not(goal))
+            r = s.check()
+            if r != z3.unknown:
+                break
+        if r == z3.sat:
+            try:
+                ob.model = s.model()
+            except z3.Z3Exception:
+                pass
+        ob.time = time.time() - t0
+        self.stats['z3_time'] += ob.time
+        self.stats['checks'] += 1
+        ob.status = str(r)
+        ob.backend = 'z3'
+        self._record(ob)
+        if assume:
+            self.assume(goal)
+
     def _record(self, ob):
         k = ob.key()
         if k in self.seen:
@@ -378,8 +412,9 @@ class Engine:
             A = z3.Lambda([k], z3.If(z3.And(k >= 0, k < n), et, dflt))
         else:
             A = z3.Array(fresh_name('M'), z3.IntSort(), sort_of(a.ty))
-            self.assumptions_quant(z3.ForAll([k], z3.Select(A, k) == z3.If(z3.And(k >= 0, k < n), et, dflt),
-                                             patterns=[z3.Select(A, k)]))
+            ax = z3.ForAll([k], z3.Select(A, k) == z3.If(z3.And(k >= 0, k < n), et, dflt), patterns=[z3.Select(A, k)])
+            self.assumptions_quant(ax)
+            self.st.ghost.setdefault('mat_axioms', {})[A.get_id()] = ax
         reuse = None
         for okey, (oA, oarr, on, oclo) in list(self.st.ghost.get('mats', {}).items()):
             if oarr.ty != a.ty:
@@ -632,10 +667,20 @@ class Engine:
         env2 = dict(self.entry_env)
         env2['result'] = value
         ens = list(contract.get('ensures', [])) + list(case.get('ensures', []))
+        using = case.get('ensures_using', contract.get('ensures_using'))
         for k, e in enumerate(ens):
             label = e if isinstance(e, str) else getattr(e, '__name__', 'fn')
             goal = self.spec_bool(e, env2)
-            self.oblige('ensures', goal, self.fdef, name='%s/ensures#%d' % (self.fn_short, k + 1), note=label[:60])
+            nm = '%s/ensures#%d' % (self.fn_short, k + 1)
+            facts = self.st.ghost.get('facts', {})
+            if using is None or not all(u in facts for u in using):
+                self.oblige('ensures', goal, self.fdef, name=nm, note=label[:60])
+            else:
+                hyps = []
+                for u in using:
+                    v = facts[u]
+                    hyps.extend(v if isinstance(v, list) else [v])
+                self.oblige_focused('ensures', hyps, goal, self.fdef, name=nm)
 
     # ------------------------------------------------------------------ typed inputs
     def make_value(self, name, T, fresh=False):
@@ -1346,22 +1391,48 @@ class Proof:
         self.env = E.st.env
         self.count = 0
 
-    def have(self, name, goal):
+    def have(self, name, goal, using=None):
+        """state a fact and prove it here.  With `using`, the proof may use only the named earlier facts (plus the
+        quantifier-free part of the path and the library axioms registered under a name): small contexts keep the
+        solver fast and the dependency structure of the argument explicit."""
         self.count += 1
-        self.E.oblige('proof', goal, self.node,
-                      name='%s/proof@%s:%s' % (self.E.fn_short, '-'.join(str(a) for a in self.anchor), name))
+        tag = '%s/proof@%s:%s' % (self.E.fn_short, '-'.join(str(a) for a in self.anchor), name)
+        if using is None:
+            self.E.oblige('proof', goal, self.node, name=tag)
+        else:
+            self.E.oblige_focused('proof', self.hyps(using), goal, self.node, name=tag)
+        self.E.st.ghost.setdefault('facts', {})[name] = goal
 
-    def induct(self, name, pred, lo, hi):
+    def hyps(self, using):
+        facts = self.E.st.ghost.setdefault('facts', {})
+        out = []
+        for u in using:
+            v = facts[u]
+            out.extend(v if isinstance(v, list) else [v])
+        return out
+
+    def register(self, name, terms):
+        """give a name to assumptions that are already part of the path (library axioms, invariants)"""
+        self.E.st.ghost.setdefault('facts', {})[name] = list(terms)
+
+    def induct(self, name, pred, lo, hi, using=None):
         """forall i in [lo, hi]: pred(i), by induction on i: base pred(lo) (if lo <= hi), step pred(i) => pred(i+1) for
         lo <= i < hi.  The conclusion is then available (the induction principle over the integers is the only thing
         used that the solver does not check)."""
         i = z3.Int(fresh_name('ind'))
         tag = '%s/proof@%s:%s' % (self.E.fn_short, '-'.join(str(a) for a in self.anchor), name)
-        self.E.oblige('proof', z3.Implies(lo <= hi, pred(lo)), self.node, name=tag + '/base')
-        # the step is proved for an arbitrary i under the induction hypothesis, without polluting the path
-        self.E.oblige_isolated('proof', [z3.And(lo <= i, i < hi), pred(i)], pred(i + 1), self.node, name=tag + '/step')
+        if using is None:
+            self.E.oblige('proof', z3.Implies(lo <= hi, pred(lo)), self.node, name=tag + '/base')
+            self.E.oblige_isolated('proof', [z3.And(lo <= i, i < hi), pred(i)], pred(i + 1), self.node, name=tag + '/step')
+        else:
+            h = self.hyps(using)
+            self.E.oblige_focused('proof', h, z3.Implies(lo <= hi, pred(lo)), self.node, name=tag + '/base', assume=False)
+            self.E.oblige_focused('proof', h + [z3.And(lo <= i, i < hi), pred(i)], pred(i + 1), self.node,
+                                  name=tag + '/step', assume=False)
         j = z3.Int(fresh_name('j'))
-        self.E.assumptions_quant(z3.ForAll([j], z3.Implies(z3.And(lo <= j, j <= hi), pred(j))))
+        concl = z3.ForAll([j], z3.Implies(z3.And(lo <= j, j <= hi), pred(j)))
+        self.E.assumptions_quant(concl)
+        self.E.st.ghost.setdefault('facts', {})[name] = concl
 
     def rd(self, arr, i):
         return self.E.rd(arr, i)
